@@ -4,13 +4,15 @@
    Accept = returns, Reject = AssertionError, other constructors = other exceptions;
    compare a b = true iff it returns).
    wf_named a : all libraries, definitions, ports, cables and instances are named, sibling names
-                are unique and contain no * or ?, every port has a pin, every pin on a wire belongs
-                to a port or to a child with a reference, property dictionaries have unique keys,
-                assignment-style instance names have their four "_" separated fields.
-   no_asg a   : no instance is named SDN_Assignment_...                                        *)
+                are unique (any characters, * ? [ ] included), every pin on a wire belongs to a
+                port or to a child with a reference, property dictionaries have unique keys.
+                (No longer required since the repairs 2243c09 / 62eff9e / 814f5eb of /repo: names
+                without * and ?, ports with at least one pin, four fields in SDN_Assignment_ names.)
+   no_asg a   : no instance has an assignment name: SDN_Assignment_<x>_<width>... (prefix and at
+                least four "_" separated fields; a shorter name is an ordinary name)            *)
 From Coq Require Import List.
 From SV Require Import Base.Base Cmp.Comparer Cmp.Diff Cmp.Equiv Proofs.CmpPinSet Proofs.CmpWitness Proofs.CmpProps
-  Proofs.CmpSound Proofs.CmpComplete Proofs.CmpSoundExact.
+  Proofs.CmpSound Proofs.CmpComplete Proofs.CmpSoundExact Proofs.CmpAcceptAny.
 
 (* ---- accepts: a named netlist compared with itself / a structurally equal copy ---- *)
 Theorem C20_accepts : forall a, wf_named a -> compare a a = true.
@@ -20,6 +22,23 @@ Print Assumptions C20_accepts.
 Theorem C20_accepts_copy : forall a b, wf_named a -> b = a -> compare a b = true.
 Proof. exact accepts_copy. Qed.
 Print Assumptions C20_accepts_copy.
+
+(* beyond the named netlists: EVERY netlist of the model is accepted against its own copy.
+   wf_any a (Proofs/CmpAcceptAny.v): the names of the named siblings are pairwise different, every
+   pin on a wire can be followed (pins of children without a name, of removed children, pins without
+   a port included), property dictionaries have unique keys.  Unnamed elements, assignment names,
+   any characters in names, ports without pins are all allowed.  (Was false before the repairs:
+   C20_refuted_self_* .)  Checked on the implementation on every run: oracle equal-copy-any. *)
+Theorem C20_accepts_any : forall a, wf_any a -> compare a a = true.
+Proof. exact accepts_self_any. Qed.
+Print Assumptions C20_accepts_any.
+(* the named netlists of C20_accepts are a special case *)
+Theorem C20_named_is_any : forall a, wf_named a -> wf_any a.
+Proof. exact wf_named_any. Qed.
+Print Assumptions C20_named_is_any.
+Example C20_accepts_any_ex :
+  wf_any w_noname /\ ~ wf_named w_noname /\ wf_any w_unnamed /\ wf_any w_asg2 /\ wf_any w_wild /\ wf_any w_zero.
+Proof. exact accepts_any_ex. Qed.
 
 Example C20_accepts_ex : wf_named w_base /\ no_asg w_base /\ compare w_base w_base = true.
 Proof. exact accepts_ex. Qed.
@@ -351,8 +370,7 @@ Theorem C20_sound_needs_no_asg :
   exists a b, wf_named a /\ wf_named b /\ compare a b = true /\ compare b a = true /\ ~ nv_equiv a b.
 Proof. exact assignment_hole. Qed.
 Print Assumptions C20_sound_needs_no_asg.
-(* - wf_named: unnamed elements and names with * or ? : C20_refuted_unnamed,
-     C20_refuted_self_wildcard_names below *)
+(* - wf_named: unnamed elements: C20_refuted_unnamed below *)
 
 (* the lower index of a port is not part of the property's list (direction, width, array-ness)
    and is never read by the comparer (witness corpus/cmp/c20-lower-index.json) *)
@@ -410,19 +428,25 @@ Theorem C20_refuted_unnamed : exists a b, nv_diff MPortDir a b /\ compare a b = 
 Proof. exact refuted_unnamed. Qed.
 Print Assumptions C20_refuted_unnamed.
 
-(* outside wf_named a netlist may fail against its own copy: sibling names with wildcard
-   characters, a port without pins, an assignment-style name with fewer than four fields,
-   a connected instance without a name (witnesses corpus/cmp/c20-wildcard-name.json,
-   c20-zero-width-port.json, c20-asg-short.json, c20-unnamed-inst-connected.json) *)
-Theorem C20_refuted_self_wildcard_names : exists a, cmp_run a a = Reject.
-Proof. exact refuted_self_wildcard_names. Qed.
-Theorem C20_refuted_self_zero_width_port : exists a, cmp_run a a = Reject /\ a <> w_wild.
-Proof. exact refuted_self_zero_width_port. Qed.
-Theorem C20_refuted_self_short_assignment_name : exists a, cmp_run a a = IndexErr.
-Proof. exact refuted_self_short_assignment_name. Qed.
-Theorem C20_refuted_self_unnamed_instance : exists a, cmp_run a a = AttrErr.
-Proof. exact refuted_self_unnamed_instance. Qed.
-Print Assumptions C20_refuted_self_unnamed_instance.
+(* the witnesses of the former self-reject refutations (findings C20-wildcard-names-self-reject,
+   C20-zero-width-port-self-reject, C20-assignment-name-indexerror,
+   C20-unnamed-instance-attributeerror; were the C20_refuted_self theorems): sibling names 'ab' and 'a*', a
+   named port without pins, an instance named SDN_Assignment_x, a connected instance without a
+   name.  Since the repairs (names looked up literally; no 'DRC' assert in compare_ports;
+   get_assignment_width; None-safe getters) each is accepted against its own copy, and the first
+   three are ordinary members of the domain of C20_accepts / C20_exact (witnesses
+   corpus/cmp/c20-wildcard-name.json, c20-zero-width-port.json, c20-asg-short.json,
+   c20-unnamed-inst-connected.json, replayed on the real Comparer on every run) *)
+Example C20_self_wildcard_names_accepted : wf_named w_wild /\ cmp_run w_wild w_wild = Accept.
+Proof. exact self_wildcard_names_accepted. Qed.
+Example C20_self_zero_width_port_accepted : wf_named w_zero /\ cmp_run w_zero w_zero = Accept /\ w_zero <> w_wild.
+Proof. exact self_zero_width_port_accepted. Qed.
+Example C20_self_short_assignment_name_accepted :
+  wf_named w_short /\ no_asg w_short /\ cmp_run w_short w_short = Accept.
+Proof. exact self_short_assignment_name_accepted. Qed.
+Example C20_self_unnamed_instance_accepted : ~ wf_named w_noname /\ cmp_run w_noname w_noname = Accept.
+Proof. exact self_unnamed_instance_accepted. Qed.
+Print Assumptions C20_self_unnamed_instance_accepted.
 
 (* differences that raised, but not AssertionError (findings C20-missing-property-not-assertion,
    C20-renamed-element-stopiteration): a property the copy lacks (was KeyError), a renamed element
@@ -438,13 +462,34 @@ Example C20_renamed_element_is_rejected :
 Proof. exact renamed_element_is_rejected. Qed.
 Print Assumptions C20_renamed_element_is_rejected.
 
-(* in general: compare_instances on two instances that reference a definition returns or raises
-   AssertionError, whatever their EDIF.properties are (no hypothesis on the property lists: the
-   asserts on the number of entries and on the key sets guard properties_composer[x][key]) *)
-Theorem C20_compare_instances_raises_only_assertion : forall o c, i_ref o <> None -> i_ref c <> None ->
-  cmp_inst (Some o) (Some c) = Accept \/ cmp_inst (Some o) (Some c) = Reject.
+(* in general: compare_instances on any two instances (or None) returns or raises
+   AssertionError, whatever their names, references and EDIF.properties are (the asserts on the
+   number of entries and on the key sets guard properties_composer[x][key]) *)
+Theorem C20_compare_instances_raises_only_assertion : forall o c,
+  cmp_inst o c = Accept \/ cmp_inst o c = Reject.
 Proof. exact cmp_inst_assert_only. Qed.
 Print Assumptions C20_compare_instances_raises_only_assertion.
 Example C20_compare_instances_raises_only_assertion_ex :
   exists o c, i_ref o <> None /\ i_ref c <> None /\ i_props o <> i_props c /\ i_props o <> None /\ i_props c <> None.
 Proof. exact cmp_inst_assert_only_ex. Qed.
+
+(* the whole comparer, on ALL netlist values - unnamed elements, assignment-style names of any
+   shape, instances without reference or parent, dangling pins, pins without a port, any
+   properties: compare() returns or raises AssertionError.  (Ill is not an outcome of the code: it
+   marks values that are not the abstraction of a netlist - a pin on a wire whose instance or port
+   cannot be followed, never produced by harness/cmp_canon.py without being reported.)
+   Was false before the repair 62eff9e: IndexError (name.split("_")[3]), AttributeError
+   (None.startswith, None.library, None.pins), TypeError ("..." + None).                      *)
+Theorem C20_raises_only_assertion : forall a b,
+  cmp_run a b = Accept \/ cmp_run a b = Reject \/ cmp_run a b = Ill.
+Proof. exact cmp_run_assert_only. Qed.
+Print Assumptions C20_raises_only_assertion.
+
+Theorem C20_no_other_exception : forall a b,
+  cmp_run a b <> StopIter /\ cmp_run a b <> IndexErr /\ cmp_run a b <> KeyErr /\
+  cmp_run a b <> AttrErr /\ cmp_run a b <> TypeErr.
+Proof. exact cmp_run_no_other_exception. Qed.
+Print Assumptions C20_no_other_exception.
+Example C20_raises_only_assertion_ex :
+  ~ wf_named w_noname /\ cmp_run w_noname w_noname = Accept /\ cmp_run w_noname w_base = Reject.
+Proof. exact cmp_run_assert_only_ex. Qed.
